@@ -12,7 +12,8 @@
    the current form; `_partial` is what holds for both. *)
 From Coq Require Import String ZArith List Bool.
 From DV Require Import Model.PyPrims Gen.ReaderLoops Model.Tokenizer Model.Newick Model.C20Model Model.C20Nexus2
-                       Proofs.C20Proofs Proofs.C20Tok Proofs.C20Newick Proofs.C20Nexus2Proofs Proofs.C20Nexus2Total.
+                       Proofs.C20Proofs Proofs.C20Tok Proofs.C20Newick Proofs.C20Nexus2Proofs Proofs.C20Nexus2Total
+                       Proofs.C20NexusDims Proofs.C20NexusRows.
 Import ListNotations.
 Close Scope string_scope.
 Open Scope list_scope.
@@ -171,6 +172,49 @@ Theorem nexus_dims_consistent_refuted :
      end.
 Proof. exact nexus2_dims_witnesses_l. Qed.
 Print Assumptions nexus_dims_consistent_refuted.
+
+(* nexus_dims_consistent: declared-versus-found dimensions on the repaired form (fx_ildims = true; for the
+   sequential reader both forms agree).
+   (a) Every MATRIX statement the skeleton accepts appends ONE matrix, and every row of it holds exactly the NCHAR
+       in force when the statement is read (the matrices read before are untouched).
+   (b) In the final state of every accepted document every matrix is rectangular (the other blocks - TAXA, TREES,
+       SETS/CHARSET, unknown blocks - never change the rows of a matrix).
+   The number of ROWS is not tied to NTAX: the reader only bounds it from above through the capacity of the taxon
+   namespace (TooManyTaxaError in get_taxon); that a matrix may have FEWER rows than NTAX is the residual finding
+   `nexus:Ok-InvalidMatrix:rows-fewer`, the exact exception, witnessed in nexus_dims_consistent_refuted above. *)
+Theorem nexus_matrix_dims :
+  forall (fx : nfix) (upper lower : Tokenizer.str -> Tokenizer.str) (sym_ok : Z -> Z -> bool)
+         (is_float : Tokenizer.str -> bool) (F : nat) (st : nstate) (block_title link_title : option Tokenizer.str)
+         (st' : nstate) (nchar : Z),
+  fx_ildims fx = true -> 0 <= nchar ->
+  parse_matrix fx upper lower sym_ok is_float F st block_title link_title = ROk st' ->
+  n_nchar st = Some nchar ->
+  exists m, n_mats st' = n_mats st ++ [m] /\ Forall (fun r => snd r = nchar) (m_rows m).
+Proof. exact nexus_matrix_dims_l. Qed.
+Print Assumptions nexus_matrix_dims.
+
+(* (c) rows versus NTAX, what the skeleton does enforce: the rows of an accepted matrix are DISTINCT taxa of its
+   namespace, and there are at most max(NTAX, members the namespace had before the statement) of them (a new label
+   is refused with TooManyTaxaError once the namespace holds NTAX members).  No lower bound: `rows-fewer`. *)
+Theorem nexus_matrix_rows :
+  forall (fx : nfix) (upper lower : Tokenizer.str -> Tokenizer.str) (sym_ok : Z -> Z -> bool)
+         (is_float : Tokenizer.str -> bool) (F : nat) (st : nstate) (block_title link_title : option Tokenizer.str)
+         (st' : nstate) (ntax : Z),
+  parse_matrix fx upper lower sym_ok is_float F st block_title link_title = ROk st' ->
+  n_ntax st = Some ntax ->
+  exists m, n_mats st' = n_mats st ++ [m] /\ NoDup (map fst (m_rows m))
+            /\ Z.of_nat (length (m_rows m)) <= Z.max ntax (Z.of_nat (length (tns_labels st (m_tns m)))).
+Proof. exact nexus_matrix_rows_l. Qed.
+Print Assumptions nexus_matrix_rows.
+
+Theorem nexus_dims_consistent :
+  forall (fx : nfix) (upper lower : Tokenizer.str -> Tokenizer.str) (dval : Z -> option Z)
+         (sym_ok : Z -> Z -> bool) (is_float : Tokenizer.str -> bool) (text : Tokenizer.str) (st : nstate),
+  fx_ildims fx = true ->
+  nexus_read fx upper lower dval sym_ok is_float text = ROk st ->
+  Forall (fun m => exists nchar, Forall (fun r => snd r = nchar) (m_rows m)) (n_mats st).
+Proof. exact nexus_dims_consistent_l. Qed.
+Print Assumptions nexus_dims_consistent.
 
 (* the same documents on the repaired form; valid documents (sequential with multistate groups, TREES with
    TRANSLATE, SETS; interleaved followed by TREES; STANDARD with SYMBOLS) read on both forms *)
